@@ -209,6 +209,7 @@ def constructors(ctx):
 
     def caller(name, build, *arrays):
         before = [a.copy() for a in arrays]
+        shapes = [a.shape for a in arrays]
         try:
             o = quiet(build, *arrays)
             for m in ("recurrence_rate", "determinism", "degree", "white_noise_surrogates",
@@ -224,29 +225,53 @@ def constructors(ctx):
             return
         for i, (a0, a1) in enumerate(zip(before, arrays)):
             ctx.case(("caller-array", name, i), True, {"constructor": name, "argument": i})
-            if not same(a0, a1):
+            if a1.shape != shapes[i] or not same(a0, a1.reshape(a0.shape)):
                 ctx.fail({"kind": "caller-array-edited", "constructor": name, "argument": i},
                          f"{name} modifies its input array #{i} in place",
                          {"constructor": name, "argument": i, "before": brief(a0)[:4],
                           "after": brief(a1)[:4]})
-    ts = nprng.rand(20) * 3
-    ts2 = nprng.rand(20, 2) * 3
+    from pyunicorn.timeseries import InterSystemRecurrenceNetwork, JointRecurrenceNetwork
     A = (nprng.rand(6, 6) < 0.5).astype(int)
     A = np.triu(A, 1)
     A = A + A.T
     w = nprng.rand(6) + 0.5
-    for norm in (False, True):
-        caller(f"RecurrencePlot(normalize={norm})",
-               lambda x: RecurrencePlot(x, threshold=0.5, normalize=norm, silence_level=3), ts.copy())
-        caller(f"RecurrenceNetwork(normalize={norm})",
-               lambda x: RecurrenceNetwork(x, threshold=0.5, normalize=norm, silence_level=3),
-               ts2.copy())
-        caller(f"CrossRecurrencePlot(normalize={norm})",
-               lambda x, y: CrossRecurrencePlot(x, y, threshold=0.5, normalize=norm,
-                                                silence_level=3), ts.copy(), ts[::-1].copy())
-        caller(f"JointRecurrencePlot(normalize={norm})",
-               lambda x, y: JointRecurrencePlot(x, y, threshold=(0.5, 0.5), normalize=norm,
-                                                silence_level=3), ts.copy(), ts[::-1].copy())
+    # caller arrays in both float widths (a constructor that converts with copy=False aliases
+    # the caller's array exactly when the dtype already matches) and in 1-D / 2-D layout
+    for dt in (np.float64, np.float32):
+        ts = (nprng.rand(20) * 3).astype(dt)
+        ts2 = (nprng.rand(20, 2) * 3).astype(dt)
+        tag = dt.__name__
+        for norm in (False, True):
+            caller(f"RecurrencePlot({tag}, normalize={norm})",
+                   lambda x: RecurrencePlot(x, threshold=0.5, normalize=norm, silence_level=3),
+                   ts.copy())
+            caller(f"RecurrencePlot2d({tag}, normalize={norm})",
+                   lambda x: RecurrencePlot(x, threshold=0.5, normalize=norm, silence_level=3),
+                   ts2.copy())
+            caller(f"RecurrenceNetwork({tag}, normalize={norm})",
+                   lambda x: RecurrenceNetwork(x, threshold=0.5, normalize=norm, silence_level=3),
+                   ts2.copy())
+            caller(f"CrossRecurrencePlot({tag}, normalize={norm})",
+                   lambda x, y: CrossRecurrencePlot(x, y, threshold=0.5, normalize=norm,
+                                                    silence_level=3), ts.copy(), ts[::-1].copy())
+            caller(f"JointRecurrencePlot({tag}, normalize={norm})",
+                   lambda x, y: JointRecurrencePlot(x, y, threshold=(0.5, 0.5), normalize=norm,
+                                                    silence_level=3), ts.copy(), ts[::-1].copy())
+            caller(f"JointRecurrenceNetwork({tag}, normalize={norm})",
+                   lambda x, y: JointRecurrenceNetwork(x, y, threshold=(0.5, 0.5), normalize=norm,
+                                                       silence_level=3), ts.copy(), ts[::-1].copy())
+            caller(f"InterSystemRecurrenceNetwork({tag}, normalize={norm})",
+                   lambda x, y: InterSystemRecurrenceNetwork(x, y, threshold=(0.5, 0.5, 0.5),
+                                                             normalize=norm, silence_level=3),
+                   ts.copy(), ts[::-1].copy())
+            caller(f"InterSystemRecurrenceNetwork2d({tag}, normalize={norm})",
+                   lambda x, y: InterSystemRecurrenceNetwork(x, y, threshold=(0.5, 0.5, 0.5),
+                                                             normalize=norm, silence_level=3),
+                   ts2.copy(), ts2[::-1].copy())
+        caller(f"Surrogates({tag})", lambda x: Surrogates(x, silence_level=3),
+               nprng.rand(3, 16).astype(dt))
+        caller(f"VisibilityGraph({tag})", lambda x: VisibilityGraph(x, silence_level=3), ts.copy())
+    ts = nprng.rand(20) * 3
     caller("Surrogates", lambda x: Surrogates(x, silence_level=3), nprng.rand(3, 16))
     caller("VisibilityGraph", lambda x: VisibilityGraph(x, silence_level=3), ts.copy())
     caller("Network", lambda a, ww: Network(adjacency=a, node_weights=ww, silence_level=3),
